@@ -2,11 +2,12 @@
 """prints the prompt for an independent seeded-change agent for property <ID> (worktree /tmp/mut_<ID>)"""
 import json, sys
 pid = sys.argv[1]
+rnd = sys.argv[2] if len(sys.argv) > 2 else ""
 for l in open('/verif/properties.jsonl'):
     p = json.loads(l)
     if p['id'] == pid:
         break
-wt = "/tmp/mut_%s" % pid
+wt = "/tmp/mut%s_%s" % (rnd, pid)
 files = ", ".join(p['anchors']['files'])
 print(f"""You are testing how robust a Python library is against subtle regressions. The library is qc-tum/qib (quantum circuits; pure Python over numpy/scipy). You have your own scratch git worktree of it at {wt} (work ONLY there; never touch /repo or /verif, and do not read anything under /verif). Run Python as `cd {wt} && OMP_NUM_THREADS=2 PYTHONPATH={wt}/src /venv/bin/python ...` and tests as `cd {wt} && OMP_NUM_THREADS=2 OPENBLAS_NUM_THREADS=2 PYTHONPATH={wt}/src /venv/bin/python -m pytest -q -p no:cacheprovider tests/<file>` (ALWAYS set the two thread variables: the machine is shared; with them the full suite `tests/` takes 1-3 minutes; all 61 tests pass on the unchanged tree — record the baseline for the files you rely on first).
 
@@ -16,4 +17,4 @@ Quantified over: {p['quantifier']['text']}
 Code mainly in: {files}.
 
 TASK: produce THREE different source changes (each a separate small patch against the unchanged tree) that each BREAK this property while the package still imports and EVERY test of the full suite that passed before still passes (run the full suite once per final patch). Prefer changes that need something specific to manifest — an unusual input (sizes/parameters/shapes outside what the tests use, particular combinations), a multi-step sequence of operations or history, or two cooperating sites that each look fine alone — NOT ones that ordinary use exposes at once. Make them realistic: the kind of slip a maintainer could make in a refactoring or "optimisation" (caching, vectorising, simplifying a formula, changing a loop bound or direction, an in-place update that aliases, a special case for small sizes), not sabotage with magic constants. Spread the three changes over different clauses of the property / different functions.
-For each change deliver, in {wt}/out/<k>/ (k = 1,2,3): `patch.diff` (from `git diff` in the worktree), `demo.py` (a small program that exits non-zero / fails an assertion WITH the change and exits 0 WITHOUT it; only the public API and numpy/scipy), and `meta.json` {{"property":"{pid}","what":"<one paragraph: what breaks>","needs":"<what is needed to manifest>","tests_run":"<command and result summary>"}}. Verify both directions of each demo yourself (apply patch -> demo fails and tests pass; `git checkout -- .` -> demo passes). Leave the worktree clean (`git checkout -- .`) at the end, keeping only the out/ directory. Final message: a short list of the three changes.""")
+For each change deliver, in {wt}/out/<k>/ (k = 1,2,3): `patch.diff` (from `git diff` in the worktree), `demo.py` (a small program that exits non-zero / fails an assertion WITH the change and exits 0 WITHOUT it; only the public API and numpy/scipy), and `meta.json` {{"property":"{pid}","what":"<one paragraph: what breaks>","needs":"<what is needed to manifest>","tests_run":"<command and result summary>"}}. Verify both directions of each demo yourself (apply patch -> demo fails and tests pass; `git checkout -- .` -> demo passes). Leave the worktree clean (`git checkout -- .`) at the end, keeping only the out/ directory. Final message: a short list of the three changes. Never use `git stash` (it is shared between worktrees); use `git diff > file`, `git checkout -- .`, `git apply file`.""")
